@@ -674,6 +674,10 @@ class Exec:
                 raise Unsupported('contains on an unmodelled set')
             key = self.as_str(a[1])
             return self.fork_bool(z3.Or([key == e for e in els]) if els else z3.BoolVal(False), st)
+        if re.search(r'Option::<.*>::map::<', n) and isinstance(a[0], tuple) and a[0] and a[0][0] == 'enum' and a[0][1] == 'Option':
+            if a[0][2] == 'None':
+                return [(st, a[0])]
+            return [(s2, ('enum', 'Option', 'Some', [r])) for (s2, r) in self.invoke(a[1], [a[0][3][0]], st)]
         if re.search(r'HashMap::<.*>::keys$', n):
             pairs = self.coll(a[0], st)
             if pairs is None:
